@@ -1,4 +1,6 @@
 import AfkakProofs.Consumer.Pure
+import AfkakProofs.Consumer.Trace
+import AfkakProps.Open.C14
 /-!
 # C14 — retries, offset-reset policy and buffer growth follow the contract
 -/
@@ -30,6 +32,101 @@ theorem C14_growth (b : Nat) (mx : Option Nat) :
   · rw [grow_none, growSmall_eq, growLarge_eq, growThreshold_eq]; split <;> rfl
   · intro m; rw [grow_some, growSmall_eq, growLarge_eq, growThreshold_eq]; split <;> (try split) <;> rfl
 
+/-- A too-small answer (no complete message) never moves the fetch position, whatever state it
+    arrives in (running or stopped, block in progress or not, buffer at its maximum or not): the
+    message is fetched again with a larger buffer, never skipped. -/
+theorem C14_never_skips (cfg : Cfg) (inner : Ops) (k : Nat) (s : St) :
+    (handleFetchResponse cfg inner k { msgs := [], tail := .small } s).fetchOffset = s.fetchOffset := by
+  have hretry : ∀ (a : Option Rat) (x : St), (retryFetch cfg a x).fetchOffset = x.fetchOffset := by
+    intro a x; unfold retryFetch emit; grind
+  have herr : ∀ (f : Fail) (x : St), (startErrback f x).fetchOffset = x.fetchOffset := by
+    intro f x; unfold startErrback emit; grind
+  unfold handleFetchResponse
+  split
+  · rfl
+  · simp only []
+    split
+    · rfl
+    · unfold fetchBody fetchTail
+      simp only [extract, deliverBlock, List.isEmpty_nil, if_true]
+      cases hg : grow s.bufferSize cfg.bufMax with
+      | some b => simp only [hretry]
+      | none =>
+        simp only []
+        split
+        · unfold handleFetchError fetchErrorTail
+          simp only [Fail.isOutOfRange, Bool.false_and, Bool.false_eq_true, if_false]
+          repeat' split
+          all_goals simp only [hretry, herr]
+        · simp only [herr]
+
+/-- … and the buffer announced by the next request is the grown one (or the start Deferred fails with
+    `ConsumerFetchSizeTooSmall` exactly when the buffer is already at its maximum). -/
+theorem C14_too_small_grows (cfg : Cfg) (inner : Ops) (k : Nat) (s : St) (hr : s.startD = .pending) (hb : s.msgBlock = false) :
+    (∀ b, grow s.bufferSize cfg.bufMax = some b →
+        (handleFetchResponse cfg inner k { msgs := [], tail := .small } s).bufferSize = b) ∧
+    (grow s.bufferSize cfg.bufMax = none →
+        (handleFetchResponse cfg inner k { msgs := [], tail := .small } s).out.head? = some (.ob (.startFired (.err .tooSmall)))) := by
+  have hretry : ∀ (a : Option Rat) (x : St), (retryFetch cfg a x).bufferSize = x.bufferSize := by
+    intro a x; unfold retryFetch emit; grind
+  unfold handleFetchResponse fetchBody fetchTail
+  simp only [extract, deliverBlock, List.isEmpty_nil, if_true, hr, hb]
+  refine ⟨fun b hg => ?_, fun hg => ?_⟩
+  · simp [hg, hretry]
+  · simp [hg, hr, startErrback, errbackRaises, emit]
+
+/-- Out-of-range offset: with no reset policy the failure is reported on the start Deferred and
+    nothing is retried; with a policy the fetch position becomes the policy's value (earliest /
+    latest) wherever the answer arrives. -/
+theorem C14_reset_policy (cfg : Cfg) (t : Nat) (s : St) (hr : s.startD = .pending) :
+    (cfg.reset = none →
+        handleFetchError cfg (.ext .outOfRange t) s =
+          { s with requestD := .none, startD := .called, out := .ob (.startFired (.err (.ext .outOfRange t))) :: s.out }) ∧
+    (∀ r, cfg.reset = some r → (handleFetchError cfg (.ext .outOfRange t) s).fetchOffset = r) := by
+  have hretry : ∀ (a : Option Rat) (x : St), (retryFetch cfg a x).fetchOffset = x.fetchOffset := by
+    intro a x; unfold retryFetch emit; grind
+  have herr : ∀ (f : Fail) (x : St), (startErrback f x).fetchOffset = x.fetchOffset := by
+    intro f x; unfold startErrback emit; grind
+  unfold handleFetchError fetchErrorTail
+  refine ⟨fun h => ?_, fun r h => ?_⟩
+  · simp [h, hr, Fail.isOutOfRange, startErrback, emit]
+  · simp only [h, hr, Fail.isOutOfRange]
+    repeat' split
+    all_goals simp_all [hretry, herr]
+
+/-- One back-off step: a failed fetch/offset request of a running consumer (no attempt limit reached,
+    not out-of-range-without-policy) schedules a refetch after exactly the current `retry_delay`, and the
+    next delay is `min(retry_delay * factor, max)`; together with `C14_delay_closed_form` the k-th
+    consecutive failure waits `min(init * factor^k, max)`. -/
+theorem C14_backoff_step (cfg : Cfg) (s : St) (hr : s.startD ≠ .none) (hs : s.stopping = false) (hd : s.shuttingDown = false)
+    (ht : s.retryCall = .none) :
+    retryFetch cfg none s =
+      { s with out := .ob (.setTimer .retry s.retryDelay) :: s.out, retryDelay := nextDelay cfg.retryMax s.retryDelay,
+               attempts := s.attempts + 1, retryCall := .pending (s.now + s.retryDelay) } := by
+  have hr' : (s.startD == StartD.none) = false := by simpa using hr
+  simp [retryFetch, emit, hs, hd, ht, hr']
+
+/-- A successful reply resets the delay to the initial one (and the attempt count), for offset
+    replies and for fetch replies alike (also when the reply has to wait behind a block). -/
+theorem C14_success_resets (cfg : Cfg) (inner : Ops) (k : Nat) (r : Reply) (s : St) (hr : s.startD ≠ .none) (hb : s.msgBlock = true) :
+    (handleFetchResponse cfg inner k r s).retryDelay = cfg.retryInit ∧ (handleFetchResponse cfg inner k r s).attempts = 1 := by
+  have hr' : (s.startD == StartD.none) = false := by simpa using hr
+  simp [handleFetchResponse, hr', hb]
+
+/-- Attempt limit: with `L > 0` and `L` attempts made, a failure is reported on the start Deferred and
+    NO retry is scheduled; with `L = 0` a running consumer always schedules the retry. -/
+theorem C14_attempt_limit_step (cfg : Cfg) (f : Fail) (s : St) (hr : s.startD = .pending) (hs : s.stopping = false)
+    (hd : s.shuttingDown = false) (ht : s.retryCall = .none) (hf : f.isOutOfRange = false) :
+    (cfg.maxAttempts ≠ 0 → cfg.maxAttempts ≤ s.attempts →
+        handleFetchError cfg f s = { s with requestD := .none, startD := .called, out := .ob (.startFired (.err f)) :: s.out }) ∧
+    (cfg.maxAttempts = 0 →
+        (handleFetchError cfg f s).retryCall = .pending (s.now + s.retryDelay) ∧
+        (handleFetchError cfg f s).out = .ob (.setTimer .retry s.retryDelay) :: s.out) := by
+  refine ⟨fun h0 hle => ?_, fun h0 => ?_⟩
+  · have : (cfg.maxAttempts != 0 && decide (s.attempts ≥ cfg.maxAttempts)) = true := by simp [h0, hle]
+    simp [handleFetchError, fetchErrorTail, hr, hs, hf, this, startErrback, emit]
+  · simp [handleFetchError, fetchErrorTail, hr, hs, hf, h0, retryFetch, hd, ht, emit]
+
 /-! Non-vacuity: the default configuration (128 KiB, no maximum) reaches a 20 MiB message in five growths
 (2, 4, 8, 16, 32 MiB). -/
 example : growN none 5 fetchBufferSizeBytes ≥ 20 * 2 ^ 20 ∧ growN none 4 fetchBufferSizeBytes < 20 * 2 ^ 20 := by decide
@@ -41,6 +138,17 @@ end Afkak.Props.C14
 C14_delay_closed_form
 C14_delay_monotone
 C14_growth
+C14_never_skips
+C14_too_small_grows
+C14_reset_policy
+C14_backoff_step
+C14_success_resets
+C14_attempt_limit_step
 -/
 /- OPEN_STATEMENTS
+C14_delays
+C14_attempt_limit
+C14_reset_policy_trace
+C14_growth_trace
+C14_never_skips_trace
 -/
